@@ -36,7 +36,8 @@ inline std::string jnum(double d) { if (!std::isfinite(d)) return "null"; char b
 
 struct Args {
     std::string tier = "quick", out, replay, replaydir = "build/replay", variant = "plain-c1d0", repo = "/repo";
-    long seed = 0; double deadline = 170;
+    long seed = 0; double deadline = 170; int shard = 0, nshards = 1;
+    bool mine(long unit) const { return nshards <= 1 || (unit % nshards) == shard; }   // work splitting between parallel processes
     bool thorough() const { return tier == "thorough"; }
 };
 inline Args parse_args(int argc, char** argv) {
@@ -45,7 +46,7 @@ inline Args parse_args(int argc, char** argv) {
         std::string k = argv[i], v = argv[i + 1];
         if (k == "--tier") a.tier = v; else if (k == "--out") a.out = v; else if (k == "--replay") a.replay = v;
         else if (k == "--replaydir") a.replaydir = v; else if (k == "--variant") a.variant = v; else if (k == "--seed") a.seed = atol(v.c_str());
-        else if (k == "--deadline") a.deadline = atof(v.c_str()); else if (k == "--repo") a.repo = v;
+        else if (k == "--deadline") a.deadline = atof(v.c_str()); else if (k == "--repo") a.repo = v; else if (k == "--shard") a.shard = atoi(v.c_str()); else if (k == "--nshards") a.nshards = atoi(v.c_str());
     }
     return a;
 }
